@@ -427,7 +427,7 @@ type c18Op struct {
 	Typ   int
 	Bits  int
 	info  *custom.DeviceMfgInfo
-	Mode  int  // R: 0 Close+Open, 1 second Open beside the first, 2 sqlite.New over the same *sql.DB
+	Mode  int  // R: 0 Close+Open, 1 second Open beside the first, 2 sqlite.New over the same *sql.DB, 3 back to an earlier live instance
 	Probe bool // inserted after a ReplaceVoucher by the harness
 }
 
@@ -602,6 +602,7 @@ type c18Gen struct {
 	dead  map[int]bool // tokens the plan has invalidated
 	maxT  int
 	guids []protocol.GUID
+	force int // setValue: field to use + 1 (0: random)
 	plan  []*c18Op
 }
 
@@ -659,6 +660,9 @@ func (g *c18Gen) tokenRef(o *c18Op) {
 func (g *c18Gen) setValue(o *c18Op) {
 	m := g.m
 	o.Field = g.r.IntN(13)
+	if g.force > 0 {
+		o.Field = g.force - 1
+	}
 	switch o.Field {
 	case 0:
 		ch := m.chains[g.r.IntN(len(m.chains))]
@@ -760,6 +764,32 @@ func c18Plan(seed int64, index int, m *c18Material) []*c18Op {
 				g.newToken()
 			}
 			continue
+		case p < 100 && g.ntok > 0:
+			// two live server instances take turns on one session: a value written through one, overwritten through the
+			// other, read through the first again (and once more after yet another turn)
+			tok := g.r.IntN(g.ntok)
+			f := g.r.IntN(13)
+			mk := func(kind string) *c18Op {
+				q := &c18Op{Tok: tok, Kind: kind, Field: f}
+				if kind == "S" {
+					g.force = f + 1
+					g.setValue(q)
+					g.force = 0
+				}
+				return q
+			}
+			g.add(mk("S"))
+			g.add(&c18Op{Tok: -1, Kind: "R", Mode: 1})
+			g.add(mk("G"))
+			g.add(mk("S"))
+			g.add(&c18Op{Tok: -1, Kind: "R", Mode: 3})
+			g.add(mk("G"))
+			if g.r.IntN(2) == 0 {
+				g.add(mk("S"))
+				g.add(&c18Op{Tok: -1, Kind: "R", Mode: 3})
+				g.add(mk("G"))
+			}
+			continue
 		case p < 330:
 			o.Kind = "S"
 			g.tokenRef(o)
@@ -798,7 +828,7 @@ func c18Plan(seed int64, index int, m *c18Material) []*c18Op {
 			o.info = g.m.infos[g.r.IntN(len(g.m.infos))]
 		case p < 760:
 			o.Kind = "R"
-			o.Mode = g.r.IntN(3)
+			o.Mode = g.r.IntN(4)
 		case p < 800:
 			o.Kind = "av"
 			o.G = g.guid()
@@ -1032,6 +1062,15 @@ func (e *c18Exec) reopen(mode int) error {
 		e.db = db
 	case 2:
 		e.db = sqlite.New(e.db.DB())
+	case 3:
+		// go back to an instance opened earlier that is still alive (two server instances taking turns on one file:
+		// A … B … A); when there is none yet, open a second one beside the first
+		if len(e.others) == 0 {
+			return e.reopen(1)
+		}
+		back := e.others[0]
+		e.others = append(e.others[1:], e.db)
+		e.db = back
 	}
 	return nil
 }
